@@ -116,6 +116,13 @@ Definition run (input : list Z) : list Z :=
   else if mode =? 2 then
     let '(ttl, _) := w_next l in
     let lt := store_lifetimes s ttl in [min_ttl s; max_ttl s; l_chunk lt; l_manifest lt; l_shards lt; l_announce lt]
+  else if mode =? 4 then
+    (* the same chunk stored a second time, dt_ms later: ChunkStore::put replaces the record (insert_or_assign) and every
+       other deadline is rewritten, so the lifetimes are those of a first store -- the earlier store leaves no trace *)
+    let '(_, l) := w_next l in
+    let '(_, l) := w_next l in
+    let '(ttl, _) := w_next l in
+    let lt := store_lifetimes s ttl in [min_ttl s; max_ttl s; l_chunk lt; l_manifest lt; l_shards lt; l_announce lt]
   else if mode =? 3 then
     let '(has, l) := w_next l in
     let '(text, _) := w_bytes l in
